@@ -78,14 +78,8 @@ func genC08(r *Rnd, t Tier) *Case {
 	for i := range s.Outcomes {
 		s.Outcomes[i].Coop = pick(r, CoopReturn, CoopReturn, CoopResult)
 	}
-	// the uncancelled execution must terminate: unlimited retries need a final success nobody handles
-	for _, p := range sc.Policies {
-		if p.Kind == KRetry && p.MaxRetries == -1 {
-			s.Outcomes = append(s.Outcomes, Outcome{Result: 4, Dur: time.Duration(r.Range(0, 5)) * unit})
-			break
-		}
-	}
 	sc.Scripts = []Script{s}
+	terminating(sc)
 	op := Op{Kind: "exec", CancelSrc: src}
 	async := r.P(0.4) || src == SrcResultCancel
 	withExec := r.P(0.85)
